@@ -432,8 +432,9 @@ class EDEOption(Option):  # lgtm[py/missing-equals]
         text = parser.get_remaining()
 
         if text:
-            if text[-1] == 0:  # text MAY be null-terminated
-                text = text[:-1]
+            # text MAY be null-terminated; strip every trailing NUL so that
+            # re-encoding the option is a fixed point of decoding it
+            text = text.rstrip(b"\x00")
             btext = text.decode("utf8")
         else:
             btext = None
